@@ -5,8 +5,8 @@
    Format numbers: 0 RGBA8, 2 RGBA5551, 3 RGB565, 4 RGBA4, 5 LA8, 7 L8, 8 A8 (listed_color_format), 12 ETC1, 13 ETC1A4.
    Every statement quantifies over the arithmetic mode m (Checked = overflow-checked build, Wrapping = release). *)
 From Coq Require Import List NArith ZArith Bool Lia.
-From Mila Require Import Lib.Bytes Lib.Machine Model.Pixel Model.PixelSpec Model.Etc1 Model.ColorFormat Model.PixelM Proofs.TexFinite Proofs.PixelProofs
-  Proofs.Etc1Proofs Proofs.PaletteProofs Proofs.PixelAssembly Proofs.ColorFormatProofs Proofs.PixelMProofs Proofs.ModeProofs.
+From Mila Require Import Lib.Bytes Lib.Machine Model.Pixel Model.PixelSpec Model.Etc1 Model.ColorFormat Model.PixelM Model.Etc1M Proofs.TexFinite Proofs.PixelProofs
+  Proofs.Etc1Proofs Proofs.PaletteProofs Proofs.PixelAssembly Proofs.ColorFormatProofs Proofs.PixelMProofs Proofs.ModeProofs Proofs.Etc1MProofs.
 Import ListNotations.
 Local Open Scope N_scope.
 
@@ -187,8 +187,8 @@ Theorem C19_palette_within_step : forall pal_data img w h,
 Proof. exact palette_pixel_ok. Qed.
 
 (* ---- the two build profiles ---- *)
-(* decode_pixel_data (all formats) and mila::decode give the same outcome in both modes for EVERY payload, as soon as
-   the byte count 4*w*h of the output fits the machine word (all u16 dimensions) *)
+(* the mode-free models take the mode only at the two size products; this theorem is about those.  That no OTHER machine
+   operation can overflow is not assumed but proved on the moded models below (the C19_moded theorems). *)
 Theorem C19_mode_independent : forall data w h, 4 * w < 2 ^ 64 -> 4 * (w * h) < 2 ^ 64 ->
   (forall fmt, decode_pixel_data Checked data w h fmt = decode_pixel_data Wrapping data w h fmt) /\
   (forall alpha, etc1_decode Checked data w h alpha = etc1_decode Wrapping data w h alpha).
@@ -228,6 +228,27 @@ Theorem C19_moded_palette_mode_independent : forall pal_data img w h, w < 65536 
   wfb pal_data -> lenN pal_data < 2 ^ 64 -> wfb img ->
   tpl_ci8_image_m Checked pal_data img w h = tpl_ci8_image_m Wrapping pal_data img w h.
 Proof. exact palette_moded_mode_independent. Qed.
+
+(* etc1.rs in the monad (Model/Etc1M.v): u64 shifts with constant and computed amounts, the u8 shifts of the colour expansion
+   and of `complement`, `* 0x11`, the i32 negation / addition of the modifier, texel coordinates, pixel positions, the
+   payload cursor, the tile counts; every payload, sides below 2^31 *)
+Theorem C19_moded_etc1_block_colors : forall m pixels, block_colors_m m pixels = Ok (block_colors pixels).
+Proof. exact block_colors_m_ok. Qed.
+Theorem C19_moded_etc1_texel : forall m pixels alphas c1 c2 px py, px < 4 -> py < 4 -> bytes3 c1 -> bytes3 c2 ->
+  texel_m m pixels alphas c1 c2 px py = Ok (texel pixels alphas c1 c2 px py).
+Proof. exact texel_m_ok. Qed.
+Theorem C19_moded_etc1 : forall m data w h alpha, w < 2 ^ 31 -> h < 2 ^ 31 -> lenN data < 2 ^ 63 ->
+  etc1_decode_pixels_m m data w h alpha = etc1_decode_pixels m data w h alpha.
+Proof. exact etc1_decode_pixels_m_ok. Qed.
+(* the moded public entry points (these are what `./check C19` compares with the implementation, in both modes and both
+   build profiles) equal the mode-free ones, hence every theorem of this file speaks about them; and the two modes agree *)
+Theorem C19_moded_decode_pixel_data : forall m data w h fmt, w < 2 ^ 31 -> h < 2 ^ 31 -> lenN data < 2 ^ 63 -> wfb data ->
+  decode_pixel_data_m m data w h fmt = decode_pixel_data m data w h fmt.
+Proof. exact decode_pixel_data_m_ok. Qed.
+Theorem C19_moded_mode_independent : forall data w h, w < 2 ^ 31 -> h < 2 ^ 31 -> lenN data < 2 ^ 63 -> wfb data ->
+  (forall fmt, decode_pixel_data_m Checked data w h fmt = decode_pixel_data_m Wrapping data w h fmt) /\
+  (forall alpha, etc1_decode_m Checked data w h alpha = etc1_decode_m Wrapping data w h alpha).
+Proof. exact moded_mode_independent. Qed.
 
 (* ---- the hypotheses are satisfiable ---- *)
 Example C19_ex_formats : forallb listed_format [0; 2; 3; 4; 5; 7; 8; 12; 13] = true /\ forallb listed_format [1; 6; 9; 10; 11; 14] = false.
